@@ -9,9 +9,9 @@ VERIF = os.path.dirname(os.path.dirname(os.path.abspath(__file__)))
 CLAIMS = {
     "C01": dict(
         category="other", design_ref="§5 U02/U03",
-        technique="Kani/CBMC inductive-step harnesses on seglog Writer::{append,sync,set_len} and on the writer thread's WriterSet::{sync,rollover}, all extracted verbatim, over an arbitrary state satisfying the representation invariant (cursor alignment; published watermark <= fsynced offset of the live segment), against an in-memory disk / BufWriter / watch-channel model",
+        technique="Kani/CBMC inductive-step harnesses on seglog Writer::{append,sync,set_len} and on the writer thread's WriterSet::{sync,rollover}, all extracted verbatim, over an arbitrary state satisfying the representation invariant (cursor alignment; published watermark <= fsynced offset of the live segment), against an in-memory disk / BufWriter / watch-channel model; WriterSet::handle_write under contract (units/U23)",
         text="Bounded stand-in (scaled buffer constants, tiny records, ALL byte contents and ALL writer positions symbolic): from any state with file cursor + buffered bytes == write offset, append writes exactly length/checksum/header/data at the reported offset and publishes nothing; sync lands the buffered bytes at the cursor, calls sync_data, then publishes flushed == write offset; set_len lowers both offsets, writes the marker, keeps bytes below AND re-aligns the cursor (so a rejected/truncated append cannot displace later acknowledged ones). By induction the invariant holds after every history of these calls.",
-        note="PARTIAL: the seglog layer plus the watermark invariant of the writer thread (units/U12w: WriterSet::sync fsyncs, publishes pending index entries, then the watermark; WriterSet::rollover releases every appender of the sealed segment and starts the new segment with watermark <= fsynced - this harness found the stale-watermark defect fixed in cc7f18a). NOT decided: WriterSet::handle_write, the async hand-off in WriterThreadPool::append_events (released when watermark >= write offset: read, not proved), reads through the async reader pool, real kernel fsync semantics (sync_data is a model no-op counted for ordering only), reopen. Multi-step history harnesses ran CBMC out of memory and are not registered."),
+        note="PARTIAL: the seglog layer plus the watermark invariant of the writer thread (units/U12w: WriterSet::sync fsyncs, publishes pending index entries, then the watermark; WriterSet::rollover releases every appender of the sealed segment and starts the new segment with watermark <= fsynced - this harness found the stale-watermark defect fixed in cc7f18a). NOT decided: the async hand-off in WriterThreadPool::append_events (released when watermark >= write offset: read, not proved), reads through the async reader pool, real kernel fsync semantics (sync_data is a model no-op counted for ordering only), reopen. Multi-step history harnesses ran CBMC out of memory and are not registered."),
     "C17": dict(
         category="other", design_ref="§5 U01/U02",
         technique="Kani/CBMC on seglog parse_record extracted verbatim over every bit pattern of a 20-byte buffer (CRC modelled as a GF(2)-linear rolling hash) + one checksum-gate harness per decoding path of Reader::read_record (optimistic / fallback / allocated buffer, sequential read-ahead; units/U02r) + the writer's append-layout inductive step + Verus proofs of Writer::open's recovery scan and of the read-ahead cache (units/U03); thorough: read_record(Random) == parse_record on arbitrary 40-byte images",
@@ -29,9 +29,9 @@ CLAIMS = {
         note="`stored size` is read as the UNCOMPRESSED record size (the size the database budgets for): a compressible transaction larger than a segment is rejected by design. Contract (a) found the defect fixed in 86f6510 (incompressible data grew under compression past the estimate). ASSUMED: the record format sizes (bincode encoding of RawEvent / RawCommit: external crate) restated in the U19 harness; the real zstd is replaced by a model codec that shrinks runs and expands everything else. Bounded: <= 2 events per transaction (lengths symbolic), 7-byte data in (a)."),
     "C02": dict(
         category="other", design_ref="§4 C25 (U04), §5 U12",
-        technique="Verus proof + complete Kani harnesses on validate_partition_sequence / ExpectedVersion algebra (U04) and bounded Kani harnesses on WriterSet::validate_event_versions extracted verbatim (model HashMap, index lookup behind a contract) against the one spec `accepts`; the index lookup that feeds it (read_stream_latest_version) is itself under contract in units/U20",
-        text="Partition-sequence half (proof, all u64): the store accepts exactly when `accepts(expected, current)`, the rejection reports the actual state. Stream half (bounded: transactions of <= 2 events over <= 2 streams, <= 1 pending append, versions/expectations full-range, arbitrary indexed state): validate_event_versions returns Ok iff every event's expectation holds against the stream state EXTENDED by the earlier events of the same transaction and every touched stream carries the transaction's partition key; the returned versions are the versions each event saw; rejections name the right reason.",
-        note="category `other`: the stream half is a bounded stand-in. NOT decided: WriterSet::handle_write (assignment of sequences/versions, pending-index bookkeeping), `a rejected append changes nothing observable` at Worker::handle_append_events level (set_len path), next_partition_sequence, agreement of pending / open-index / closed-index lookups across reopen (read_stream_latest_version is a callee behind an assumed contract), the latest-version / latest-sequence queries."),
+        technique="Verus proof + complete Kani harnesses on validate_partition_sequence / ExpectedVersion algebra (U04) and bounded Kani harnesses on WriterSet::validate_event_versions extracted verbatim (model HashMap, index lookup behind a contract) against the one spec `accepts`; the index lookup that feeds it (read_stream_latest_version) is itself under contract in units/U20; WriterSet::handle_write extracted verbatim under contract (units/U23: sequence / version assignment, bookkeeping unchanged on rejection)",
+        text="Partition-sequence half (proof, all u64): the store accepts exactly when `accepts(expected, current)`, the rejection reports the actual state. Stream half (bounded: transactions of <= 2 events over <= 2 streams, <= 1 pending append, versions/expectations full-range, arbitrary indexed state): validate_event_versions returns Ok iff every event's expectation holds against the stream state EXTENDED by the earlier events of the same transaction and every touched stream carries the transaction's partition key; the returned versions are the versions each event saw; rejections name the right reason. handle_write (bounded: <= 2 events, a write failure at any record or at the flush): a rejected write leaves pending index entries, next sequences and the unflushed count exactly as before; an accepted one gives the events consecutive partition sequences from the partition's next sequence and the successor of each validated stream version, queues one index entry per event, advances the next sequence by n and reports first / last sequence and each stream's LAST version.",
+        note="category `other`: the stream half is a bounded stand-in. handle_write found the defect fixed in 9dbfeb5 (a failed flush left the rejected transaction's index entries pending). NOT decided: agreement of pending / open-index / closed-index lookups across reopen (read_stream_latest_version is a callee behind an assumed contract), the latest-version / latest-sequence queries."),
     "C03": dict(
         category="proof", design_ref="§6 U15",
         technique="Verus contracts on SegmentIter::{new,is_finished,remaining_offsets,skip} extracted verbatim: forward scans visit offsets[idx..], reverse scans visit offsets[..=idx] backwards; Kani/CBMC complete harnesses on PartitionIterConfig / StreamIterConfig::try_get_from_reader_set (which sealed segment a scan starts in and at which index; units/U22); replay through the real Database (scenario driver DB)",
@@ -39,7 +39,7 @@ CLAIMS = {
         note="PARTIAL: SegmentIter's synchronous positioning (Verus) and the sealed-segment selection (Kani, complete, closed indexes behind a lookup contract) are under contract. NOT decided: BucketIter::new_inner / next_batch / rollover hand-over between segments (async, closures into the reader pool), try_get_from_live_indexes (async lock), the MPHF/bloom index lookups (external crates), the stream filter. Callers clamp the index (precondition). The database-level replay driver exercises those paths only as a counterexample search."),
     "C04": dict(
         category="other", design_ref="§6 U13",
-        technique="Kani/CBMC on SegmentBlock::read_committed_events and BucketSegmentReader::read_committed_events (polonius) extracted verbatim; read_record behind a contract over an abstract well-formed log",
+        technique="Kani/CBMC on SegmentBlock::read_committed_events and BucketSegmentReader::read_committed_events (polonius) extracted verbatim; read_record behind a contract over an abstract well-formed log; the writer side (commit record appended after the events, exactly once, iff the transaction is not a flagged single event) in WriterSet::handle_write (units/U23)",
         text="Bounded stand-in, labelled: from every record boundary of every well-formed log (two transactions, the second possibly absent or cut after 1 or 2 events by a crash) the readers return a single-event transaction alone, a multi-event transaction only when its commit record is in the log, with every sibling event between the offset and the commit and none of another transaction, and nothing for a transaction whose commit is missing.",
         note="Bounded (log <= 6 records). Log well-formedness is a precondition taken from the writer. SmallVec/Uuid are models; record decoding (bincode, seglog) is behind read_record's contract. NOT decided: concurrent readers while a transaction is being written (C18's flushed-offset contract), the stream filter afterwards."),
     "C09": dict(
